@@ -19,3 +19,12 @@ Theorem C02_median_robust :
     Median.filter leb s x = Some (s', y) /\ In y (lastn N (hist ++ [x])).
 Proof. exact median_robust. Qed.
 Print Assumptions C02_median_robust.
+
+(* No false alarm: the boolean reading of this property that the correspondence check evaluates on the IMPLEMENTATION's
+   outputs (Check/C02.v, verdict bit 2) can never fail on outputs that agree with the model (bit 1 clear); side conditions,
+   where there are any, are boolean and say which recorded observations the model comparison does not cover. *)
+From Coq Require Import NArith.
+From Signalo Require Base.Report Check.C02 Proofs.Sound_C02.
+Theorem C02_checker_no_false_alarm : forall c : Signalo.Check.C02.case, (1 <= Signalo.Check.C02.cN c)%nat -> Signalo.Check.C02.wide (Signalo.Check.C02.cN c) = false -> N.land (Signalo.Base.Report.code (Signalo.Check.C02.check c)) 3 <> 2%N.
+Proof. exact Signalo.Proofs.Sound_C02.C02_check_sound. Qed.
+Print Assumptions C02_checker_no_false_alarm.
